@@ -9,4 +9,4 @@ _orm.define(globals(), "C36", ("C36",), "history",
             "inspect(obj).attrs[x].history (passive), UPDATE statements are captured at the cursor.  Sampled.",
             "the committed value is the harness's own record of what was loaded or flushed, not the library's committed_state",
             weights={"set": 8, "set_parent": 5, "bs_append": 4, "bs_remove": 4, "bs_replace": 3, "tag_add": 3, "tag_remove": 3, "node_parent": 3,
-                     "follow": 2, "unfollow": 2, "flush": 4, "requery": 2, "lazy": 3, "mut_data": 2, "g_ops": 8, "q_ops": 3, "set_p": 6, "h_doc": 2, "commit": 3, "label": 2, "set_k": 2})
+                     "follow": 2, "unfollow": 2, "flush": 4, "requery": 2, "lazy": 3, "mut_data": 2, "g_ops": 8, "q_ops": 3, "set_p": 6, "h_doc": 2, "commit": 3, "label": 2, "set_k": 4, "expire_attr": 4, "mk_child": 4})
